@@ -115,4 +115,67 @@ PROPS = {
               "metrics.Metric locks (simulated mutex with Go's writer preference)", "EmitLabelSets goroutines", "prometheus client_golang"],
         stub=["push connection (net.DialTimeout redirected)", "http.ResponseWriter"],
     ),
+    "C20": dict(
+        level="exploration",
+        quick=dict(runs=4000),
+        thorough=dict(runs=120000),
+        rule=("each run = N in 4..31 numbered lines streamed by a feeder task while a loader task performs 1-4 reloads of a witness program "
+              "(same declarations at the same place: gauge last, counter seen by n, counter byver by v; each version counts into its own byver label), "
+              "each reload started after a seeded number of lines; mostly statement-level preemption with small quanta so that the reload lands "
+              "while the old version is between receiving a line and finishing it. The controller samples the gauge after every scheduler step. "
+              "Non-trivial: a reload overlapped the line stream; distinct = distinct (N, reload positions, schedule signature)."),
+        assumptions=["reloads are requested through LoadAllPrograms (what the SIGHUP handler calls); the signal itself is not delivered",
+                     "lines carry only digits; the witness program is insensitive to anything but order and multiplicity"],
+        expect_probes=["reload_overlapped_lines"],
+        real=["runtime.Runtime (fan-out goroutine, LoadAllPrograms, CompileAndRun, vm swap)", "vm.VM (Run loop, ProcessLogLine)", "metrics.Store.Add carry-over", "compiler"],
+        stub=[],
+    ),
+    "C26": dict(
+        level="exploration",
+        quick=dict(runs=4000),
+        thorough=dict(runs=120000),
+        rule=("each run = a real program directory with up to three .mtail files, a dot-file, a notes.txt, *.mtail.bak / *.mtail.txt names, a "
+              "subdirectory holding a .mtail file and optionally a directory *named* d.mtail, and a history of 1-8 actions {write valid, write broken, "
+              "restore, remove, rename (to eligible and ineligible names), touch, reload only}, each followed by LoadAllPrograms — one time in three "
+              "while a feeder streams lines. After each reload one line is fed at quiescence: exactly the (file, version) counters of the model's "
+              "running set move by one, and prog_loads/unloads/load_errors equal the events. With lines flowing, programs running before and after "
+              "the reload must count every line exactly once. Non-trivial: the directory changed; distinct = distinct (history, schedule signature)."),
+        assumptions=["every version of a file counts into its own label of one metric declared identically by all versions, so counts survive reloads",
+                     "symlinks and unreadable files are not generated"],
+        expect_probes=["edit_valid", "edit_broken", "restore", "remove", "rename", "rename_to_ineligible", "touch", "reload_while_lines_flow", "directory_named_like_program"],
+        real=["runtime.Runtime (LoadAllPrograms, LoadProgram, CompileAndRun, UnloadProgram, fan-out)", "vm.VM", "compiler", "kernel filesystem", "prog_* expvars"],
+        stub=[],
+    ),
+    "C14": dict(
+        level="exploration",
+        quick=dict(runs=4000),
+        thorough=dict(runs=120000),
+        rule=("each run = program p loaded, lines fed, then 1-7 actions from {reload p with a version from the family identical / comment-only edit / "
+              "declaration moved / kind changed / type changed / keys changed / syntax error — one time in three while lines flow; load or remove a "
+              "second program q whose second declaration conflicts in kind with p's (registration refused after q already declared another metric); "
+              "clock advance + GC; more lines incl. delayed deletes}. The harness interprets the lines itself (hits, bytag[tag], g, pending expiry) "
+              "and compares with the store after every action; a failed load must leave the exposition byte-identical and the old version running "
+              "(probe lines create new label sets); after every action a real registry Gather (exporter registered while the store was empty, as "
+              "the daemon does) must succeed. Non-trivial: a kept-declaration reload, a failed load or a refused registration happened."),
+        assumptions=["after a reload that changes a declaration (moved, kind, type, keys) the statement promises nothing about kept values: value tracking stops, the no-duplicates/gather oracle continues",
+                     "programs that deliberately export one name twice are not generated"],
+        expect_probes=["kept_declarations_reload", "failed_load", "registration_refused", "reload_declaration-moved", "reload_type-changed", "reload_keys-changed", "reload_kind-changed", "reload_syntax-error", "reload_identical", "gc", "reload_while_lines_flow"],
+        real=["runtime.Runtime", "metrics.Store (Add carry-over, CheckKind, Remove, Gc)", "vm.VM", "exporter.Exporter.Collect + prometheus.Registry.Gather + expfmt", "Go time (fake clock)"],
+        stub=[],
+    ),
+    "C06": dict(
+        level="exploration",
+        quick=dict(runs=3000),
+        thorough=dict(runs=100000),
+        rule=("each run = an observed program (3 variants: scalar + dimensioned + gauge, hidden metric, runtime-error maker) loaded first and never "
+              "touched, 4-33 lines, and 1-6 loader operations on up to three other program files drawn from 8 kinds (same name+kind, same name with "
+              "float type, same name with other keys, same-name gauge, kind conflict, broken, runtime-error maker, hidden same name) — add, replace, "
+              "remove, re-add — half of them while the lines flow. Oracle: the observed program's series in the real Prometheus exposition equal "
+              "those of a solo reference run on the same lines (second runtime in the same bubble); the scrape as a whole keeps working; valid "
+              "non-conflicting programs are never refused; no datum is shared between programs. Non-trivial: a load overlapped line processing."),
+        assumptions=["OmitProgLabel is not used (same-named metrics then collide by construction)", "timestamps are not compared (values only)"],
+        expect_probes=["load_overlapped_lines", "other_same-name-same-kind", "other_same-name-float", "other_same-name-other-keys", "other_kind-conflict", "other_broken", "other_runtime-errors", "other_hidden-same-name", "other_gauge-same-name"],
+        real=["runtime.Runtime", "metrics.Store", "vm.VM (one goroutine per program)", "exporter.Exporter (Collect, Write)", "prometheus.Registry.Gather + expfmt"],
+        stub=[],
+    ),
 }
